@@ -488,6 +488,30 @@ def gen_tub(out):
     dups = [s for s in ba.body[:idx] if isinstance(s, ast.If) and un(s.test) == "tubref in self.brokers"]
     if len(dups) != 1 or not any(isinstance(x, ast.Raise) for x in dups[0].body):
         raise U("Tub.brokerAttached: the duplicate-connection refusal before the store changed")
+    # the key that is forgotten / stored / answered is the one the method was called with: its parameters are never rebound
+    # (assignment, for-target, with-as, except-as, walrus, del, import, nested def/class/lambda/comprehension of that name)
+    for n in ast.walk(ba):
+        if isinstance(n, ast.Name) and n.id in ("tubref", "broker", "isClient") and not isinstance(n.ctx, ast.Load):
+            raise U("Tub.brokerAttached: parameter %s is rebound at line %d" % (n.id, n.lineno))
+        if isinstance(n, ast.ExceptHandler) and n.name in ("tubref", "broker", "isClient"):
+            raise U("Tub.brokerAttached: parameter %s is rebound by an except clause" % n.name)
+        if isinstance(n, (ast.Import, ast.ImportFrom)) or (n is not ba and isinstance(n, (ast.FunctionDef, ast.ClassDef, ast.Lambda, ast.Global, ast.Nonlocal))):
+            raise U("Tub.brokerAttached: %s inside the method" % type(n).__name__)
+        if isinstance(n, ast.arg) and n is not None and n.arg in ("tubref", "broker", "isClient") and n not in ba.args.args:
+            raise U("Tub.brokerAttached: parameter name reused as an argument name")
+    srcba = un(ba)
+    for frag in ("del self.tubConnectors[tubref]", "for d in self.waitingForBrokers[tubref]:", "eventual.eventually(d.callback, broker)",
+                 "del self.waitingForBrokers[tubref]", "self.tubConnectors[tubref].shutdown()"):
+        if frag not in srcba:
+            raise U("Tub.brokerAttached no longer contains: " + frag)
+    cf = P.find_def(pm, "Tub.connectionFailed")
+    for n in ast.walk(cf):
+        if isinstance(n, ast.Name) and n.id == "tubref" and not isinstance(n.ctx, ast.Load):
+            raise U("Tub.connectionFailed: parameter tubref is rebound at line %d" % n.lineno)
+    srccf = un(cf)
+    for frag in ("del self.tubConnectors[tubref]", "if tubref in self.brokers:", "waiting = self.waitingForBrokers[tubref]", "d.errback(why)"):
+        if frag not in srccf:
+            raise U("Tub.connectionFailed no longer contains: " + frag)
     exc = Frag({}, {}).exc([x for x in dups[0].body if isinstance(x, ast.Raise)][0])
     out.append("(* Tub.brokerAttached: `if tubref in self.brokers: raise %s` then `self.brokers[tubref] = broker` *)\n"
                "Definition broker_attached_dup_exc : string := \"%s\"." % (exc, exc))
